@@ -12,10 +12,6 @@ declare_class('Args', {'https_only': TBool(), 'recursive': TBool(), 'page_requis
                        'page_requisites_level': TInt(), 'accept_regex': TOpt(TStr()), 'reject_regex': TOpt(TStr()),
                        'include_directories': OL, 'exclude_directories': OL, 'accept': OL, 'reject': OL,
                        'span_hosts': TBool(), 'span_hosts_allow': TList(TStr())})
-declare_class('AppSession', {'args': TObj('Args'), 'factory': TObj('Factory')})
-declare_class('Factory', {'item:DemuxURLFilter': TObj('DemuxURLFilter'), 'item:URLTable': TObj('URLTable')})
-declare_class('URLTable', {})
-
 HAS = lambda cls, cond='True': 'exists(0, len(result), lambda j: cls_name(result[j]) == "%s" and %s)' % (cls, cond)
 X = lambda cls: 'cast("%s", result[j])' % cls
 A = 'session.args'
